@@ -213,7 +213,7 @@ def random_history(rnd, n_acts, fresh_only=True):
             acts.append(dict(a="addedge", h=h, x=x, y=p, v=-1))
         elif a == "become":
             x, y = rnd.sample(user, 2)
-            if fresh_only:
+            if fresh_only and rnd.random() < 0.5:
                 # prefer the documented use: replace a node that has children by a childless, unrelated one
                 ys = [u for u in user if not children(h, u)]
                 xs = sorted(user, key=lambda u: -len(children(h, u)))
@@ -282,7 +282,7 @@ PINNED_F14 = dict(acts=[dict(a="add", h="m", x="a", kind="op", op=1, parents=[],
 def scenarios(ctx):
     rnd = random.Random(ctx.seed)
     out = [dict(PINNED_F14)]
-    n_fresh = 600 if ctx.quick else 6000
+    n_fresh = 1400 if ctx.quick else 8000
     for _ in range(n_fresh):
         out.append(dict(acts=random_history(rnd, rnd.randint(3, 9)), fresh=True))
     n_any = 60 if ctx.quick else 600
